@@ -83,3 +83,55 @@ def wfSC (F : LUFac K) (ilu : Bool := false) : Option String := Id.run do
   return none
 
 end Slu.Struct
+
+namespace Slu.Struct
+open Slu
+variable {K : Type} [Inhabited K]
+
+/-! ### The same predicate as a plain Boolean conjunction (the form the soundness theorem is about) -/
+
+def rowsOf (L : SNode K) (s : Nat) : List Nat :=
+  let f := L.xsup[s]!
+  (List.range (L.xlsub[f+1]! - L.xlsub[f]!)).map fun d => L.lsub[L.xlsub[f]! + d]!
+
+def ucolRows (F : LUFac K) (j : Nat) : List Nat :=
+  (List.range (F.U.colptr[j+1]! - F.U.colptr[j]!)).map fun d => F.U.rowind[F.U.colptr[j]! + d]!
+
+/-- C03 as a Boolean: every clause is a bounded quantifier over ranges -/
+def wfb (F : LUFac K) (ilu : Bool := false) : Bool :=
+  let L := F.L; let U := F.U; let n := L.n; let m := L.m; let ns := L.nsuper + 1
+  n = 0 ||
+  (decide (ns + 1 ≤ L.xsup.size) && decide (n ≤ L.supno.size) &&
+   decide (n + 1 ≤ L.xlsub.size) && decide (n + 1 ≤ L.xlusup.size) && decide (n + 1 ≤ U.colptr.size) &&
+   decide (L.xsup[0]! = 0) && decide (L.xsup[ns]! = n) &&
+   (List.range ns).all (fun s => decide (L.xsup[s]! < L.xsup[s+1]!) &&
+      (List.range (L.xsup[s+1]! - L.xsup[s]!)).all (fun c => decide (L.supno[L.xsup[s]! + c]! = s))) &&
+   decide (L.xlsub[0]! = 0) && decide (L.xlusup[0]! = 0) && decide (U.colptr[0]! = 0) &&
+   (List.range n).all (fun j => decide (L.xlsub[j]! ≤ L.xlsub[j+1]!) && decide (L.xlusup[j]! ≤ L.xlusup[j+1]!) &&
+      decide (U.colptr[j]! ≤ U.colptr[j+1]!)) &&
+   decide (L.lsub.size = L.xlsub[n]!) && decide (L.lusup.size = L.xlusup[n]!) &&
+   decide (U.rowind.size = U.colptr[n]!) && decide (U.val.size = U.colptr[n]!) &&
+   (List.range ns).all (fun s =>
+      let f := L.xsup[s]!; let l := L.xsup[s+1]! - 1; let w := l - f + 1
+      let rows := rowsOf L s
+      decide (w ≤ rows.length) &&
+      (List.range (w - 1)).all (fun k => decide (L.xlsub[f + 1 + k]! = L.xlsub[f+1]!)) &&
+      (List.range w).all (fun c => decide (rows[c]! = f + c)) &&
+      (rows.drop w).all (fun r => decide (l < r) && decide (r < m)) &&
+      nodup (rows.drop w) &&
+      (List.range w).all (fun c => decide (L.xlusup[f + c + 1]! - L.xlusup[f + c]! = rows.length))) &&
+   (List.range n).all (fun j =>
+      (ucolRows F j).all (fun r => decide (r < L.xsup[L.supno[j]!]!)) && (ilu || nodup (ucolRows F j))) &&
+   decide (F.nnzL = countnzL L) && decide (F.nnzU = countnzU F))
+
+/-- lists built with the marker test of `[sdcz]snode_dfs` / `[sdcz]column_dfs`
+(`if marker[r] != tag { marker[r] = tag; lsub[nextl++] = r }`): `acc` is what has been appended -/
+def markerFilter : List Nat → List Nat → List Nat
+  | [], acc => acc
+  | r :: rs, acc => if acc.contains r then markerFilter rs acc else markerFilter rs (acc ++ [r])
+
+/-- `fixupL` on one supernode's row list (SRC/util.c:324-335): every subscript is replaced by its
+position under `perm_r` -/
+def fixupRows (permR : Nat → Nat) (rows : List Nat) : List Nat := rows.map permR
+
+end Slu.Struct
